@@ -1012,6 +1012,7 @@ func main() {
 		}
 		out.Emit("c11 kw "+ks[0], obs)
 	}
+	emitFormats(out, hx.NewRng(cfg.Seed+7919), cfg.Thorough())
 	g := &gen{r: hx.NewRng(cfg.Seed)}
 	n := 650
 	if cfg.Thorough() {
